@@ -228,15 +228,42 @@ impl Archive {
         let task = monitor.start_task("Find referenced blocks".to_string());
         let mut blocks = HashSet::new();
         for band_id in band_ids {
-            let band = Band::open(&archive, *band_id).await?;
+            let band = match Band::open(&archive, *band_id).await {
+                Ok(band) => band,
+                Err(Error::BandHeadMissing { band_id }) => {
+                    // A backup killed while creating its band leaves a directory with no head
+                    // and nothing in it, which references no blocks. But if there are index
+                    // hunks the head was lost, and what they reference may still be in use.
+                    let index_transport = self.transport.chdir(&band_id.to_string()).chdir("i");
+                    match crate::index::IndexRead::open(index_transport)
+                        .hunks_available()
+                        .await
+                    {
+                        Ok(hunks) if hunks.is_empty() => continue,
+                        Err(Error::Transport { source }) if source.is_not_found() => continue,
+                        _ => return Err(Error::BandHeadMissing { band_id }),
+                    }
+                }
+                Err(err) => return Err(err),
+            };
             // Any hunk that can't be listed, read, or decoded must stop the scan: treating it
             // as referencing nothing would let gc delete blocks that are still in use.
             let mut index = band.index();
-            for hunk_number in index.hunks_available().await? {
-                let hunk = index
-                    .read_hunk(hunk_number)
-                    .await?
-                    .ok_or(Error::DeleteWithConcurrentActivity)?;
+            let hunk_numbers = index.hunks_available().await?;
+            for (i, hunk_number) in hunk_numbers.iter().enumerate() {
+                let hunk = match index.read_hunk(*hunk_number).await {
+                    Ok(hunk) => hunk.ok_or(Error::DeleteWithConcurrentActivity)?,
+                    // The exception is the zero-length file that a backup killed while writing
+                    // a hunk leaves as the last hunk of an unfinished band: nothing is in it.
+                    Err(_)
+                        if i + 1 == hunk_numbers.len()
+                            && index.last_read_was_empty
+                            && !band.is_closed().await? =>
+                    {
+                        continue;
+                    }
+                    Err(err) => return Err(err),
+                };
                 for addr in hunk.into_iter().flat_map(|entry| entry.addrs) {
                     blocks.insert(addr.hash);
                     task.increment(1);
